@@ -26,11 +26,33 @@ pub fn oracle(op: &str, outs: &[String]) -> String {
     let mut pending_check: Option<(Vec<(u8, Vec<u8>)>, Snap)> = None; // requests of the downlink just accepted + snapshot before
     let mut expected: Option<Vec<u8>> = None; // answer CIDs owed in the next uplink
     let mut sticky: Option<Vec<u8>> = None; // bytes that must repeat in following uplinks
+    let mut since_snap: u32 = 99; // uplinks since the last snapshot (anything else makes it stale)
     for (ev, out) in evs[1..].iter().zip(outs.iter()) {
         if out == "PANIC" || out == "HANG" {
             return format!("FAIL:{}", out);
         }
         let w: Vec<&str> = ev.split_whitespace().collect();
+        // a new session (ABP, restored session, join attempt / JoinSuccess) empties the answer
+        // queue and what is owed; an application call that changes the configuration makes the
+        // last snapshot stale
+        if matches!(w.first().copied(), Some("abp") | Some("sess") | Some("otaa")) || out.contains("resp=JoinSuccess") {
+            expected = None;
+            sticky = None;
+            pending_check = None;
+            last_snap = None;
+            since_snap = 99;
+            continue;
+        }
+        if matches!(w.first().copied(), Some("adr") | Some("dr") | Some("timeout") | Some("rxc") | Some("persist") | Some("delays")) {
+            pending_check = None;
+            if !matches!(w.first().copied(), Some("persist") | Some("delays")) {
+                since_snap = 99;
+            }
+            if matches!(w.first().copied(), Some("rxc")) {
+                // a Class C reception does not touch answers or stickiness
+            }
+            continue;
+        }
         match w.first().copied() {
             Some("snap") => {
                 let sn = match parse_snap(out) {
@@ -43,9 +65,20 @@ pub fn oracle(op: &str, outs: &[String]) -> String {
                     }
                 }
                 last_snap = Some(sn);
+                since_snap = 0;
             }
             Some("rx1") | Some("rx2") => {
                 pending_check = None;
+                if out.starts_with("resp=RxComplete") || out.starts_with("resp=NoAck") || out.starts_with("resp=SessionExpired") {
+                    // an oversized frame ended the procedure as a timeout would (ADR back-off may step)
+                    since_snap = 99;
+                }
+                if out.starts_with("resp=SessionExpired") {
+                    // at the end of the counter space the response does not say whether the frame was
+                    // accepted (answers cleared, new ones owed) or only ended the procedure
+                    expected = None;
+                    sticky = None;
+                }
                 if out.starts_with("resp=DownlinkReceived") && w.len() >= 11 && w[3] == "d" {
                     let fopts = unhex(w[8]);
                     let port: Option<u8> = w[9].parse().ok();
@@ -56,13 +89,16 @@ pub fn oracle(op: &str, outs: &[String]) -> String {
                     }
                     expected = Some(expected_answer_cids(region, &reqs));
                     sticky = None;
-                    if let Some(b) = &last_snap {
+                    // the snapshot describes the state before this downlink only if nothing but the
+                    // uplink of this exchange lies in between
+                    if let (Some(b), true) = (&last_snap, since_snap <= 1) {
                         pending_check = Some((reqs, b.clone()));
                     }
                 }
             }
             Some("send") => {
                 pending_check = None;
+                since_snap += 1;
                 if let Some(tx) = parse_tx(out) {
                     let up = match tx.up {
                         Some(u) => u,
